@@ -2,7 +2,7 @@
 PYTHONPATH=/repo/python).
 
 A log *spec* is a JSON list of items
-    ["m", type:int, source_id:int, t8:int|null]    a FusionEngine message; t8 = P1 time in eighths of a second
+    ["m", type:int, source_id:int, t8:int|null, payload_len?]   a FusionEngine message; t8 = P1 time in eighths of a second
     ["j", hex]                                     junk bytes between messages
 Messages are serialised with the library's own encoder (FusionEngineEncoder / MessageHeader.pack).  Types with a
 payload class get a default-constructed payload with p1_time set (t8 = null -> invalid P1 time, i.e. an *untimed*
@@ -33,7 +33,8 @@ def build(spec):
         if it[0] == 'j':
             out += bytes.fromhex(it[1])
             continue
-        _, ty, src, t8 = it
+        ty, src, t8 = it[1], it[2], it[3]
+        plen = it[4] if len(it) > 4 else None          # payload length, only for types without a payload class
         cls = message_type_to_class.get(mtype(ty), None)
         if cls is None:
             if t8 is not None:
@@ -42,7 +43,7 @@ def build(spec):
             h.sequence_number = enc.sequence_number
             enc.sequence_number += 1
             h.source_identifier = src
-            data = h.pack(payload=bytes((ty + i) & 0xFF for i in range(5 + ty % 7)))
+            data = h.pack(payload=bytes((ty + i * 7) & 0xFF for i in range(5 + ty % 7 if plen is None else plen)))
         else:
             m = cls()
             if hasattr(m, 'p1_time'):
@@ -110,6 +111,10 @@ def types_arg(types, form):
     MessageType values (duplicates kept in list / tuple), 'classes' = tuple of payload classes (every type must have one),
     'mixed' = list with the payload class where there is one and the MessageType otherwise (constructor only)"""
     vals = [mtype(t) for t in types]
+    if form == 'single' and len(vals) == 1:
+        return vals[0]
+    if form == 'single_class' and len(vals) == 1 and vals[0] in message_type_to_class:
+        return message_type_to_class[vals[0]]
     if form == 'list':
         return list(vals)
     if form == 'tuple':
@@ -119,6 +124,17 @@ def types_arg(types, form):
     if form == 'mixed':
         return [message_type_to_class.get(v, v) for v in vals]
     return set(vals)
+
+
+def srcs_arg(srcs, form):
+    """source_ids in the forms the API accepts: set (default), list, tuple, or a bare int for one id"""
+    if form == 'int' and len(srcs) == 1:
+        return int(srcs[0])
+    if form == 'list':
+        return list(srcs)
+    if form == 'tuple':
+        return tuple(srcs)
+    return set(srcs)
 
 
 def aliased(results, flags):
